@@ -14,10 +14,10 @@ def parseRes (s : String) : Option Addr :=
 
 def missAddr : Addr := ⟨[77, 73, 83, 83], []⟩
 
-def showOutcome : Outcome → String
+def showOutcome (again : Bool) : Outcome → String
   | .ok a p v => if a = missAddr then "extmiss" else s!"ok net={bytesToHex a.net} str={bytesToHex a.str} proto={bytesToHex p} ver={v}"
   | .okNoAddr => "oknoaddr"
-  | .err k killed => s!"err sentinel={if k = .muxUnsupported then "mux" else "none"} killed={showBool killed}"
+  | .err k killed => s!"err sentinel={if k = .muxUnsupported then "mux" else "none"} killed={showBool killed} again={if again then "ok" else "err"}"
   | .panic killed => s!"panic killed={showBool killed}"
 
 def run (_tag : String) (kv : KV) : String :=
@@ -45,7 +45,7 @@ def run (_tag : String) (kv : KV) : String :=
     let input : Input :=
       if kv.getD "kind" "stream" = "exited" then .exited
       else Scanner.firstInput stream (boolOf (kv.getD "eof" "0"))
-    showOutcome (start Facts.handshake cfg ext input)
+    showOutcome (startAgainOk Facts.handshake cfg ext input) (start Facts.handshake cfg ext input)
   | _, _, _, _ => "bad-case"
 
 end GoPlugin.Oracle.C01
